@@ -3,7 +3,7 @@
 cd /verif
 git -C /repo status --short | grep -q . && { echo "/repo not clean"; exit 2; }
 git -C /repo apply $2 || exit 2
-GOSYM_NO_EVIDENCE=1 timeout 3600 ./check.sh $1 ${3:-quick} > /tmp/tryseed-$$.log 2>&1; rc=$?
+GOSYM_REPLAY_DIR=/tmp/tryseed-replays GOSYM_NO_EVIDENCE=1 timeout 3600 ./check.sh $1 ${3:-quick} > /tmp/tryseed-$$.log 2>&1; rc=$?
 git -C /repo checkout -- . ; git -C /repo clean -fdq pkg cmd 2>/dev/null
 grep -E "^(\[|VIOLATION|OK|INCONCLUSIVE|ENGINE|KNOWN|  assert|  panic|  race|  deadlock|  lock|    native)" /tmp/tryseed-$$.log | cut -c1-260 | tail -${TAILN:-25}
-echo "exit=$rc"; rm -f /tmp/tryseed-$$.log
+echo "exit=$rc"; rm -rf /tmp/tryseed-$$.log /tmp/tryseed-replays
